@@ -685,7 +685,7 @@ def loads_section(rep, tier, seed, rng):
     n_static = len(events) - n_fext
     verdicts, results, problems = validate_trace(
         "c18-trl", "Trace_ShellLoads", "CONSTANTS Tier = \"%s\"\nDev = {}\nTol = 38\nTolStatic = 30\n" % tier, events,
-        timeout=3000)
+        timeout=3000, nproc=10 if tier == "quick" else 16)
     for res in results:
         rep.add_tlc("Trace_ShellLoads", res)
     for p in problems:
@@ -693,7 +693,12 @@ def loads_section(rep, tier, seed, rng):
     kinds = {}
     if check_selftests(rep, events, verdicts, "Trace_ShellLoads") != 2:
         rep.machinery("binding self-test of Trace_ShellLoads did not run")
-    for e in events:
+    def simplicity(e):
+        if e["kind"] != "fext":
+            return (0, e["id"])
+        return (len(e["forces"]) + len(e["forcesInc"]) + (e["P"] != rat(0)) + (e["Pinc"] != rat(0)) + bool(e["Fc"])
+                + bool(e["nxxIn"]) + (e["thetaTdeg"] != rat(0)), e["id"])
+    for e in sorted(events, key=simplicity):
         v = verdicts.get(e["id"])
         if e.get("selftest"):
             continue
@@ -717,10 +722,15 @@ def loads_section(rep, tier, seed, rng):
                 rep.known(v[0][3:], "static() of %s, alphadeg=%.6g, m1=3 m2=2 n2=2: K_uu c_u - f_u is not small in rows %s "
                           "(all-zero stiffness rows carrying load)" % (e["model"], e["alphadeg"], sorted(v[1])[:8]))
             else:
-                rep.known(v[0][3:], "calc_fext(inc=%s%s) of %s m1=%d m2=%d n2=%d pdC=%s pdT=%s T=%s T_inc=%s tan(beta)=%s: entries %s "
-                          "differ from the virtual work" % (from_rat(e["inc"]), ", kuk=<given>" if e["custom_kuk"] else "", e["model"],
-                                                            e["m1"], e["m2"], e["n2"], e["pdC"], e["pdT"], from_rat(e["T"]),
-                                                            from_rat(e["Tinc"]), from_rat(e["tanBeta"]), sorted(v[1])[:8]))
+                idx = sorted(v[1])[:6]
+                rep.known(v[0][3:], "calc_fext(inc=%s%s) of %s (m1=%d, m2=%d, n2=%d, r2=%s, L=%s, sin(alpha)=%s, pdC=%s, pdT=%s, T=%s, "
+                          "T_inc=%s, tan(beta)=%s, %d+%d point forces, P=%s, P_inc=%s): entries %s of the returned vector are %s, "
+                          "which is not the virtual work of the loads"
+                          % (from_rat(e["inc"]), ", kuk=<integer matrix>" if e["custom_kuk"] else "", e["model"], e["m1"], e["m2"],
+                             e["n2"], from_rat(e["geo"]["r2"][0]) if e["geo"]["r2"] else "derived",
+                             from_rat(e["geo"]["L"][0]) if e["geo"]["L"] else "derived", from_rat(e["ang"]["s"]), e["pdC"], e["pdT"],
+                             from_rat(e["T"]), from_rat(e["Tinc"]), from_rat(e["tanBeta"]), len(e["forces"]), len(e["forcesInc"]),
+                             from_rat(e["P"]), from_rat(e["Pinc"]), [i - 1 for i in idx], [undy(e["obs"][i - 1]) for i in idx]))
         else:
             rep.violation("%s: %s rejected by ShellLoads at entries %s: %s"
                           % (e["kind"], "calc_fext" if e["kind"] == "fext" else "static() residual", sorted(v[1])[:10], small),
@@ -865,6 +875,16 @@ def replay(path, build):
     """re-execute the real call recorded in a replay file and judge it again with the trace specification"""
     warnings.filterwarnings("ignore")
     rp = json.load(open(path))["replay"]
+    if "crashed_call" in rp:
+        with contextlib.redirect_stdout(io.StringIO()):
+            import compmech.conecyl                       # noqa: F401
+            evs, crashes = isolated_excludes([dict(K=rp["crashed_call"]["K"], xs=rp["crashed_call"]["xs"])])
+        if crashes:
+            print("replay of %s: exclude_dofs_matrix killed the interpreter again (wait status %d)" % (path, crashes[0][1]))
+            print("VIOLATION property=C18 replay=%s" % path)
+            return 1
+        evs[0]["judge"] = ["kuu", "kuk", "kku"]
+        rp = dict(section="partition", event=evs[0])
     if "event" not in rp:
         print("replay: nothing executable in", path, "-", rp)
         return 2
